@@ -138,6 +138,11 @@ def cmpHolds (op : CmpOp) (o : Option Ordering) : Bool :=
   | .ge, some .gt => true | .ge, some .eq => true
   | _, _ => false
 
+/-- `ops._cvt_to_real`: a dyadic `Fraction` operand becomes a `Float` on entry to every operation -/
+def cvtReal : NV → NV
+  | .q n d => NV.ofRat n d
+  | v => v
+
 def asNum : Val → M NV | .num v => .ok v | _ => .error .typeError
 def asBool : Val → M Bool | .bool b => .ok b | _ => .error .typeError
 def asList (μ : Heap) : Val → M (List Val) | .list r => heapGet μ r | _ => .error .typeError
@@ -227,23 +232,20 @@ def evalE (Φ : Funs) : Nat → Env → Heap → Ctx → Expr → M (Val × Heap
     | .op o args => do
       let (vs, μ') ← evalEs Φ fuel σ μ C args
       let ns ← vs.mapM asNum
-      let r ← opEval C o ns
+      let r ← opEval C o (ns.map cvtReal)
       .ok (.num r, μ')
     | .pred p a => do
       let (v, μ') ← evalE Φ fuel σ μ C a
       let b ← predEval p C (← asNum v)
       .ok (.bool b, μ')
-    | .cmp ops args => do
-      let (vs, μ') ← evalEs Φ fuel σ μ C args     -- all operands are evaluated? see note below
-      let rec chain : List CmpOp → List Val → M Bool
-        | op :: ops, a :: b :: rest => do
-          let ok ← (match op with
-            | .eq => valEq μ' fuel a b
-            | .ne => (valEq μ' fuel a b).map (!·)
-            | _ => do let x ← asNum a; let y ← asNum b; .ok (cmpHolds op (nvCompare x y)))
-          if ok then chain ops (b :: rest) else .ok false
-        | _, _ => .ok true
-      .ok (.bool (← chain ops vs), μ')
+    | .cmp ops args =>
+      -- a chain `a < b <= c` is a conjunction evaluated left to right: each operand is evaluated
+      -- once, and an operand is not evaluated at all once an earlier test has failed
+      match args with
+      | [] => .ok (.bool true, μ)
+      | a :: rest => do
+        let (av, μ1) ← evalE Φ fuel σ μ C a
+        evalChain Φ fuel σ μ1 C av ops rest
     | .not a => do
       let (v, μ') ← evalE Φ fuel σ μ C a
       .ok (.bool (!(← asBool v)), μ')
@@ -327,7 +329,7 @@ def evalE (Φ : Funs) : Nat → Env → Heap → Ctx → Expr → M (Val × Heap
       | [] => .ok (intVal 0, μ')
       | x :: xs => do
         let x0 ← asNum x
-        let acc ← xs.foldlM (fun acc y => do opEval C .add [acc, ← asNum y]) x0
+        let acc ← xs.foldlM (fun acc y => do opEval C .add [cvtReal acc, cvtReal (← asNum y)]) x0
         .ok (.num acc, μ')
     | .min es => do
       let (vs, μ') ← evalEs Φ fuel σ μ C es
@@ -384,6 +386,17 @@ def evalE (Φ : Funs) : Nat → Env → Heap → Ctx → Expr → M (Val × Heap
           match o with
           | .ret v => .ok (v, μ'')
           | .normal _ => .error .assertion     -- fell off the end
+
+def evalChain (Φ : Funs) : Nat → Env → Heap → Ctx → Val → List CmpOp → List Expr → M (Val × Heap)
+  | 0, _, _, _, _, _, _ => .error .assertion
+  | fuel + 1, σ, μ, C, a, op :: ops, b :: rest => do
+    let (bv, μ1) ← evalE Φ fuel σ μ C b
+    let ok ← (match op with
+      | .eq => valEq μ1 fuel a bv
+      | .ne => (valEq μ1 fuel a bv).map (!·)
+      | _ => do let x ← asNum a; let y ← asNum bv; .ok (cmpHolds op (nvCompare x y)))
+    if ok then evalChain Φ fuel σ μ1 C bv ops rest else .ok (.bool false, μ1)
+  | _ + 1, _, μ, _, _, _, _ => .ok (.bool true, μ)
 
 def evalEs (Φ : Funs) : Nat → Env → Heap → Ctx → List Expr → M (List Val × Heap)
   | 0, _, _, _, _ => .error .assertion
